@@ -198,6 +198,30 @@ func shapes() []Shape {
 	sh = append(sh, mk("server data only", false, func(k int) *ref.StreamSpec {
 		return &ref.StreamSpec{Client: A, Server: B, CPort: 1014, SPort: 80, Start: start(k), Pkts: simplePkts(k, "f1.pcap", C(""), S("banner"), C(""))}
 	}))
+	// payload chunks of size 0 (the stream lists a chunk without bytes for a payload-less packet): as a run of
+	// its own between two runs of the other direction, in front of server data, next to data of its own
+	// direction, at the end; chunks of equal length around it (a reader out of step then swaps, not fails)
+	for _, ec := range []struct {
+		name   string
+		chunks []ref.Chunk
+		empty  []int
+	}{
+		{"empty chunk as a run of its own", []ref.Chunk{C("GET /a"), S(""), C("GET /b"), S("200 OK")}, []int{1}},
+		{"empty client chunk before server data", []ref.Chunk{C(""), S("banner"), C("x")}, []int{0}},
+		{"empty chunk next to data of its direction", []ref.Chunk{C("a"), C(""), S("b"), S(""), S("c")}, []int{1, 3}},
+		{"empty chunk at the end", []ref.Chunk{C("a"), S("b"), C("")}, []int{2}},
+		{"two empty runs in a row", []ref.Chunk{C("aaaa"), S(""), C(""), S("bbbb"), C("cccc")}, []int{1, 2}},
+		{"only empty chunks", []ref.Chunk{C(""), S("")}, []int{0, 1}},
+	} {
+		ec := ec
+		sh = append(sh, mk(ec.name, false, func(k int) *ref.StreamSpec {
+			p := simplePkts(k, "f1.pcap", ec.chunks...)
+			for _, i := range ec.empty {
+				p[i].EmptyChunk = true
+			}
+			return &ref.StreamSpec{Client: A, Server: B, CPort: 1022, SPort: 80, Start: start(k), Pkts: p}
+		}))
+	}
 	sh = append(sh, mk("reassembly order differs from packet order", false, func(k int) *ref.StreamSpec {
 		p := simplePkts(k, "f1.pcap", C("second"), S("first"), C("third"))
 		p[0].DataRank, p[1].DataRank, p[2].DataRank = 1, 0, 2
